@@ -520,13 +520,13 @@ func Tree(t *rapid.T, o TreeOpts, depth int, label string) *model.Node {
 
 // ProjectOpts steers Project.
 type ProjectOpts struct {
-	MaxTypes   int  // scalar user types @s0.. (default 3)
-	KeyType    bool // may add a string type @key used as key shortcut
-	RegexType  bool // may add a regex type @re
-	Container  bool // may add a container type @obj reachable through value shortcuts
-	EnumNotes  bool // enum rules / inline lists may carry item comments
-	Depth      int  // max depth of the root tree (default 3)
-	Satisfied  bool // every example satisfies its rules (by construction / bounded re-drawing)
+	MaxTypes  int  // scalar user types @s0.. (default 3)
+	KeyType   bool // may add a string type @key used as key shortcut
+	RegexType bool // may add a regex type @re
+	Container bool // may add a container type @obj reachable through value shortcuts
+	EnumNotes bool // enum rules / inline lists may carry item comments
+	Depth     int  // max depth of the root tree (default 3)
+	Satisfied bool // every example satisfies its rules (by construction / bounded re-drawing)
 }
 
 // Project draws a project of scalar types, optional enum rule and a root tree; examples may or may
